@@ -2,7 +2,7 @@
    gbernsen_px and soft_threshold_px are GENERATED from thresholding.py on every run (np.choose orientation preserved). *)
 Require Import QArith Qabs Qminmax.
 Require Import Coq.Sorting.Permutation.
-Require Import MV.Base.Prelude MV.Base.QHelp MV.Gen.PyThresh_gen MV.Model.Labeled MV.Model.Threshold MV.Proof.ThresholdProof.
+Require Import MV.Base.Prelude MV.Base.QHelp MV.Gen.PyThresh_gen MV.Model.Labeled MV.Model.Threshold MV.Proof.ThresholdProof MV.Proof.OtsuProof MV.Proof.RcProof.
 
 (* Bernsen: where the local contrast reaches the threshold the pixel is compared with the local mid-grey;
    where it does not, the mid-grey is compared with the global threshold *)
@@ -28,3 +28,21 @@ Proof. exact otsu_spec_maximises. Qed.
 Theorem C16_histogram_permutation_invariant : forall v l l', Permutation l l' ->
   count_eq v l = count_eq v l' /\ maxl 0 l = maxl 0 l'.
 Proof. intros. split; [now apply count_eq_perm|now apply maxl_perm]. Qed.
+
+(* the incremental search of _histogram.cpp otsu() -- running class means, levels skipped while the lower class is empty,
+   early exit once the upper class is empty -- returns exactly the first maximiser of the between-class variance, for every
+   histogram of non-negative counts; hence no level has a larger between-class variance than the one returned *)
+Theorem C16_otsu_is_the_first_maximiser : forall hist, Forall (fun v => 0 <= v)%Z hist ->
+  otsu hist = otsu_spec hist /\
+  forall T, (0 <= T < Zlen hist)%Z -> (sigma_spec hist T <= sigma_spec hist (otsu hist))%Q.
+Proof.
+  intros hist H. split; [apply otsu_is_spec; exact H|]. intros T HT. rewrite (otsu_is_spec hist H). apply otsu_spec_maximises. exact HT.
+Qed.
+
+(* rc (the Riddler-Calvard iteration of thresholding.py) returns a value between the smallest and the largest occurring grey
+   level, for every histogram of non-negative counts with at least one occurring level *)
+Theorem C16_rc_between_occurring_levels : forall hist lo, Forall (fun v => 0 <= v)%Z hist ->
+  (forall i, (i < length hist)%nat -> nth i hist 0%Z <> 0%Z -> (lo <= Z.of_nat i)%Z) ->
+  (exists i, (i < length hist)%nat /\ nth i hist 0%Z <> 0%Z) ->
+  (zq lo <= rc hist <= zq (last_nonzero hist 0 0))%Q.
+Proof. exact rc_between_occurring_levels. Qed.
